@@ -1363,6 +1363,90 @@ pub fn gen_pitch_bends(ch: u8, foreign: bool, descending: bool) -> History {
     History { channel_arg: ch, ops: e.ops }
 }
 
+/// pitch-bend values in orders other than the full sweep, on a fresh receiver: coarse wheels that only ever send
+/// LSB 0 (or another constant LSB), repeats, alternating extremes, random order - the value reported must be the
+/// function of the 14-bit number alone that the scaling table records
+pub fn gen_pitch_bend_pattern(r: &mut Rng, ch: u8, kind: usize) -> History {
+    let mut e = Emit::new();
+    let mut send = |e: &mut Emit, x: u32, run: bool| e.msg(0xE0 | ch, &[(x & 0x7F) as u8, (x >> 7) as u8], run);
+    match kind % 8 {
+        0 => (0..128u32).for_each(|m| send(&mut e, m << 7, m % 2 == 1)),
+        1 => (0..128u32).rev().for_each(|m| send(&mut e, m << 7, false)),
+        2 => {
+            let lsb = *r.pick(&[0u32, 0, 1, 64, 127]);
+            for _ in 0..300 {
+                send(&mut e, (r.below(128) as u32) << 7 | lsb, r.chance(0.5));
+            }
+        }
+        3 => {
+            for k in 0..200u32 {
+                send(&mut e, if k % 2 == 0 { 0 } else { 16383 }, k % 3 == 0);
+                if k % 5 == 0 {
+                    send(&mut e, 8192, false);
+                }
+            }
+        }
+        4 => {
+            for _ in 0..100 {
+                let x = r.below(16384) as u32;
+                for _ in 0..1 + r.below(3) {
+                    send(&mut e, x, r.chance(0.5));
+                }
+            }
+        }
+        5 => {
+            // multiples of 128 first, then one fine value, then multiples of 128 again
+            for _ in 0..40 {
+                send(&mut e, (r.below(128) as u32) << 7, r.chance(0.5));
+            }
+            send(&mut e, r.below(16384) as u32 | 1, false);
+            for _ in 0..40 {
+                send(&mut e, (r.below(128) as u32) << 7, r.chance(0.5));
+            }
+        }
+        6 => {
+            // the top and bottom MSB with every LSB
+            for l in 0..128u32 {
+                send(&mut e, 127 << 7 | l, l % 2 == 0);
+                send(&mut e, l, false);
+                send(&mut e, 64 << 7 | l, true);
+            }
+        }
+        _ => {
+            for _ in 0..300 {
+                let x = if r.chance(0.4) { (r.below(128) as u32) << 7 } else { r.below(16384) as u32 };
+                send(&mut e, x, r.chance(0.4));
+            }
+        }
+    }
+    History { channel_arg: ch, ops: e.ops }
+}
+
+/// mode setters dropped between arbitrary bytes of a history (also inside a message or a running-status run); every
+/// one really changes the mode. Framing and every controller output must be unaffected by them
+pub fn sprinkle_mode_setters(r: &mut Rng, ops: &mut Vec<Op>, p: f64) {
+    let (mut retrig, mut prio) = (false, 0u8);
+    let mut out = Vec::with_capacity(ops.len() + ops.len() / 4);
+    for op in ops.drain(..) {
+        match &op {
+            Op::Retrigger(b) => retrig = *b,
+            Op::Priority(q) => prio = *q,
+            _ => {}
+        }
+        if matches!(op, Op::Byte(_)) && r.chance(p) {
+            if r.chance(0.5) {
+                retrig = !retrig;
+                out.push(Op::Retrigger(retrig));
+            } else {
+                prio = (prio + 1 + r.below(2) as u8) % 3;
+                out.push(Op::Priority(prio));
+            }
+        }
+        out.push(op);
+    }
+    *ops = out;
+}
+
 /// controllers interleaved with note traffic (C18: neither disturbs the other)
 pub fn gen_controllers_and_notes(r: &mut Rng, n: usize) -> History {
     let channel_arg = r.below(16) as u8;
@@ -1380,7 +1464,7 @@ pub fn gen_controllers_and_notes(r: &mut Rng, n: usize) -> History {
                 let v = if r.chance(0.3) { *r.pick(&[0u8, 1, 63, 64, 65, 126, 127]) } else { r.below(128) as u8 };
                 e.msg(0xB0 | ch, &[cc, v], run);
             }
-            4 | 5 => e.msg(0xE0 | ch, &[r.below(128) as u8, r.below(128) as u8], run),
+            4 | 5 => e.msg(0xE0 | ch, &[if r.chance(0.3) { 0 } else { r.below(128) as u8 }, r.below(128) as u8], run),
             6 | 7 => {
                 if held < 30 {
                     held += 1;
@@ -1639,6 +1723,11 @@ pub fn run(ctx: &Ctx, prop: &str) -> Report {
                 run_and_record(&gen_controller_table(ch, true, c % 2 == 0), prop, &mut rep, false);
                 run_and_record(&gen_pitch_bends(ch, false, c % 2 == 1), prop, &mut rep, false);
                 run_and_record(&gen_pitch_bends(ch, true, false), prop, &mut rep, false);
+                let mut rr = Rng::derive(ctx.seed, "midi.pitch_bend_patterns", ch as u64);
+                for kind in 0..16 {
+                    run_and_record(&gen_pitch_bend_pattern(&mut rr, ch, kind), prop, &mut rep, false);
+                    rep.count("midi.c18.pitch_bend_pattern_histories", 1);
+                }
                 rep.count("midi.c18.channels_swept", 1);
                 rep
             });
@@ -1663,7 +1752,14 @@ pub fn run(ctx: &Ctx, prop: &str) -> Report {
                         h.ops = pre.ops;
                         h
                     } else {
-                        gen_controllers_and_notes(&mut r, if small { 100 } else { 400 })
+                        let mut h = gen_controllers_and_notes(&mut r, if small { 100 } else { 400 });
+                        if j % 2 == 0 {
+                            // the mode setters are public operations too: called between any two bytes
+                            let p = *r.pick(&[0.02, 0.1, 0.3]);
+                            sprinkle_mode_setters(&mut r, &mut h.ops, p);
+                            rep.count("midi.c18.histories_with_mode_setters_between_bytes", 1);
+                        }
+                        h
                     };
                     // controllers must not disturb notes (clause controller-moves-note-outputs) and notes must not disturb
                     // controllers (controller getters compared after every byte); note tracking itself is C04's subject
